@@ -52,6 +52,18 @@ func (f *frame) baseEnvNoParams(st *State) *exprEnv {
 func (f *frame) baseEnv(st *State) *exprEnv {
 	env := f.baseEnvNoParams(st)
 	for name, vs := range f.names {
+		if len(vs) > 1 {
+			// a debug reference to the zero constant at the declaration does not make the name ambiguous
+			var nonConst []ssa.Value
+			for _, x := range vs {
+				if _, isC := x.(*ssa.Const); !isC {
+					nonConst = append(nonConst, x)
+				}
+			}
+			if len(nonConst) == 1 {
+				vs = nonConst
+			}
+		}
 		if len(vs) == 1 {
 			if v, ok := f.vals[vs[0]]; ok && v.term != "" {
 				env.vars[name] = cval{term: v.term, typ: vs[0].Type()}
